@@ -179,9 +179,15 @@ def parser_job(prog, layout, deadline, seed=0, want_trees=True, max_paths=10**9,
         return [h.kind if isinstance(h, ConcTok) else names[m.eval(h.tagvar, model_completion=True).as_long()] for h in hs]
     def on_path(ex, r):
         S['paths'] += 1; S['outcomes'][r[0]] += 1
-        if r[0] == 'abort': return
+        if r[0] == 'abort' and 'step budget' not in str(r[1]): return
         if r[0] == 'unsupported': S.inconclusive(f'parser {label}: ' + XP.short_unsupported(r[1])); return
         hs = ex.u_hs; is_tok = is_tok_for(hs)
+        if r[0] == 'abort':
+            sat, m = eng.check(ex.pc)
+            if sat:
+                ks = kinds_of(hs, m); text = render(ks, hs, m)
+                S.cand('c05:hang', 'parse exceeds the step budget (non-termination candidate)', {'expr': text, 'tokens': ks}, {'op': 'compile', 'expr': text}, expected='terminates')
+            return
         if r[0] == 'panic':
             sat, m = eng.check(ex.pc)
             if sat:
